@@ -39,7 +39,8 @@
  *           is about identifiers and WSS).
  *   ASPECT  on a WSS line: only with valid parity, on the 4th or later identical
  *           reception in a row (>= 3 repeats), values per EN 300 294, not equal to
- *           the aspect announced last; on a CNI line: only the documented blank
+ *           the aspect announced last, and DEMANDED then when it differs from the aspect announced last
+ *           (seed C13 round 5, see below); on a CNI line: only the documented blank
  *           revocation {23,310,1.0,0,UNKNOWN} in the same reception as a legit
  *           station change of an identified station.
  *   a rejected packet (8/30-2 with an uncorrectable Hamming error, XDS with a bad
@@ -74,6 +75,26 @@
  * 201 (magazine 2, parallel mode, > 199) is no rolling header and does not end the
  * countdown; vbi_is_cached() is observed after every letter (no probe letter).
  *
+ * Rolling Teletext headers (seed C13 round 5, phase pal-hdr): the plain Teletext letter (page 201, one canned
+ * header without a page number) never reaches the decoder's rolling-header comparison, so what a Teletext page
+ * of the NEW station does after an identified station change was never observed.  Letters: pages 100 / 101 with
+ * the header text of station A or B containing the page number, page 200 in magazine serial mode (other
+ * magazine), page 100 with a header that lacks its page number (inconclusive), next to VPS A / B / unknown CNI,
+ * 8/30-1 B and page 201; vbi_is_cached() of 201, 100, 101, 200 is observed after every letter (a bit mask).
+ * Oracle in audit_roll(): a page raises no network event and drops nothing, the page itself is cached - in
+ * particular the first pages of the new station after an identified change ("exactly one network event", and the
+ * pages dropped are those of the OLD station); only a header that contradicts the header learned since the last
+ * reset, in the same magazine, may be taken as an unidentified channel switch (all-zero NETWORK iff a station was
+ * identified, everything dropped) - accepted as documented, not demanded.  Rolling pages and timestamp gaps are
+ * not combined in one phase (a matching header ends the countdown in the decoder; not modelled).
+ *
+ * WSS transitions (seed C13 round 5): pal_feed() DEMANDS the ASPECT event when a word with valid parity has been
+ * received four times in a row and decodes to something else than the aspect announced last (key: which decoded
+ * members differ) - otherwise the application keeps stale values while other ones are on air.  Phase
+ * sweep-wss-transition drives every ordered pair of the 64 decodable classes (format x film bit x open
+ * subtitles) through one decoder, phase pal-wss has a third valid word that differs from the first one in the
+ * open-subtitles bits only.
+ *
  * Violation keys of the CNI carriers carry a cause class computed from the
  * history alone: "[another CNI carrier received since this carrier's last
  * announcement]" (or since the start of the history when it was never announced;
@@ -88,9 +109,10 @@
  *     combine in real life, feeding the decoder with artificial data can confuse
  *     the logic": XDS histories are a BFS phase of their own (with Teletext page
  *     and empty frame), not interleaved with VPS/8/30.
- *   - the alphabet is explored in three PAL sub-alphabets (all 18 letters shallow,
- *     CNI carriers without WSS deeper, WSS + two VPS stations deepest) because WSS
- *     needs >= 4 letters per announcement and multiplies the state space.
+ *   - the alphabet is explored in PAL sub-alphabets (the first 18 letters shallow,
+ *     CNI carriers without WSS deeper, WSS + two VPS stations deepest, rolling
+ *     Teletext headers + CNI carriers, timestamp gaps) because WSS needs >= 4 letters
+ *     per announcement and multiplies the state space.
  *   - frame drops only in the dedicated phase pal-gap; elsewhere every frame
  *     advances time by 0.04 s and chswcd stays 0.
  *   - time() is not reached from vbi_decode() on these paths (only pdc.c PIL
@@ -139,7 +161,7 @@ static unsigned enc_digits(unsigned v, int n) { unsigned r = 0; for (int i = 0; 
 
 /* ---- what one reception carries ---------------------------------------- */
 
-enum { K_VPS, K_8301, K_8302, K_WSS, K_TTX, K_EMPTY, K_XNAME, K_XCALL, K_GAP, K_IDLE40 };
+enum { K_VPS, K_8301, K_8302, K_WSS, K_TTX, K_EMPTY, K_XNAME, K_XCALL, K_GAP, K_IDLE40, K_ROLL };
 enum { CAR_VPS, CAR_8301, CAR_8302, NCAR };
 static const char *CARN[NCAR] = { "VPS", "8/30-1", "8/30-2" };
 enum { DMG_NONE, DMG_SINGLE, DMG_DOUBLE };    /* 8/30-2: corrected / uncorrectable Hamming error; XDS: DOUBLE = bad checksum */
@@ -153,6 +175,7 @@ struct rx {
         unsigned wss;                            /* 14 (16) bit word, bit 0 first */
         const char *str;                         /* XDS */
         const char *name;
+        unsigned pgno; int stn, serial, nopgno;  /* K_ROLL: rolling Teletext page, header text of station stn (0 = A, 1 = B) */
 };
 
 static void build_vps(vbi_sliced *sl, const struct rx *r)
@@ -325,6 +348,12 @@ static void ttx_header(vbi_sliced *s, int mag, int page)
         const char *t = "C13 PAGE";
         for (int i = 0; t[i]; i++) s->data[10 + i] = vbi_par8(t[i]);
 }
+static int own_bit;                             /* probe bit of the page the current frame itself carries */
+/* pages observed with vbi_is_cached() after every letter; bit 0 is the page of the plain Teletext letter */
+static const int PROBE[] = { TTX_PGNO, 0x100, 0x101, 0x200 };
+enum { NPROBE = sizeof PROBE / sizeof PROBE[0] };
+static int probe_bit(unsigned pgno) { for (int i = 0; i < NPROBE; i++) if (PROBE[i] == (int) pgno) return 1 << i; return 0; }
+static int cached_mask(void) { int m = 0; for (int i = 0; i < NPROBE; i++) if (vbi_is_cached(D.vbi, PROBE[i], VBI_ANY_SUBNO)) m |= 1 << i; return m; }
 /* page 201: header, row 1, terminating header 2FF (see harness/C11.c) */
 static void feed_ttx_page(void)
 {
@@ -333,9 +362,40 @@ static void feed_ttx_page(void)
         ttx_packet(&s[1], 2, 1);
         for (int i = 0; i < 5; i++) s[1].data[2 + i] = vbi_par8("HELLO"[i]);
         ttx_header(&s[2], 2, 0xFF);
+        own_bit = probe_bit(TTX_PGNO);
         frame(s, 3);
+        own_bit = 0;
 }
-static int page_cached(void) { return vbi_is_cached(D.vbi, TTX_PGNO, VBI_ANY_SUBNO) != 0; }
+/* Rolling pages (seed C13 round 5): a page whose header carries the station's own text and the page number
+ * as text, as the header of a real station does (EN 300 706 9.3.1: 24 characters + 8 characters clock).  The
+ * decoder compares the header of every such page with the one it learned after the last reset
+ * (store_lop()/same_header(): page <= 199 or magazine serial mode, BCD, none of C5 C6 C7 C9 C10); a different
+ * header in the same magazine is taken as an unannounced channel switch.  Header row, row 1, terminating
+ * header xFF, one frame. */
+static const char *HDR_TXT[2] = { "ARD-Text", "ZDFtext" };
+static void roll_header(vbi_sliced *s, unsigned pgno, int stn, int serial, int nopgno)
+{
+        char t[40], num[8];
+        ttx_packet(s, (pgno >> 8) & 7, 0);
+        s->data[2] = vbi_ham8(pgno & 15); s->data[3] = vbi_ham8((pgno >> 4) & 15);
+        for (int i = 4; i < 9; i++) s->data[i] = vbi_ham8(0);            /* subcode 0, C4..C10 clear */
+        s->data[9] = vbi_ham8(serial ? 1 : 0);                           /* C11 magazine serial */
+        snprintf(num, sizeof num, "%03x", pgno);
+        snprintf(t, sizeof t, "%-8.8s %3.3s Mo 01 Jan  12:00:00", HDR_TXT[stn], nopgno ? "" : num);
+        for (int i = 0; i < 32; i++) s->data[10 + i] = vbi_par8(t[i]);
+}
+static void feed_roll_page(const struct rx *r)
+{
+        vbi_sliced s[3]; char row[41];
+        roll_header(&s[0], r->pgno, r->stn, r->serial, r->nopgno);
+        ttx_packet(&s[1], (r->pgno >> 8) & 7, 1);
+        snprintf(row, sizeof row, "%-8.8s page %03x", HDR_TXT[r->stn], r->pgno);
+        for (int i = 0; row[i]; i++) s[1].data[2 + i] = vbi_par8(row[i]);
+        roll_header(&s[2], (r->pgno & 0xF00) | 0xFF, r->stn, r->serial, 1);
+        own_bit = probe_bit(r->pgno);
+        frame(s, 3);
+        own_bit = 0;
+}
 
 /* XDS: class channel information (start 0x05), type 1 network name / 2 call letters */
 static void feed_xds(int type, const char *str, int bad_checksum)
@@ -372,6 +432,8 @@ static struct {
         int xi_have; char xi_name[36], xi_key[36];
         /* channel-switch countdown (vbi_decode): armed by a timestamp gap, 40 regular frames */
         int started, cd, gap_seen, expired, id_under_cd;
+        /* rolling Teletext header learned since the last reset: station text and page (magazine) */
+        int hdr_have, hdr_stn, after_change; unsigned hdr_pgno;
 } R;
 static int frame_viol;
 
@@ -381,7 +443,8 @@ static uint64_t n_events, n_receptions;
 static unsigned outcomes_seen;
 
 enum { O_FIRST_ID, O_CHANGE_DROP, O_DEVIATION_KEPT, O_UNKNOWN_ID, O_WSS_ANNOUNCED, O_WSS_BADPAR_SILENT, O_WSS_SAME_SILENT, O_REVOKE, O_VPS_PID, O_VPS_PID_SINGLE_SILENT,
-       O_8302_PID, O_LOCAL_TIME, O_REJECTED_SILENT, O_CORRECTED_SAME, O_SECOND_CARRIER_ID, O_XDS_FIRST, O_XDS_CHANGE, O_XDS_CALL_REFINES, O_REANNOUNCE_AFTER_DEVIATION, O_ANON_RESET, O_ANON_AFTER_FIRST_ID, O_GAP_DISARMED, O_N };
+       O_8302_PID, O_LOCAL_TIME, O_REJECTED_SILENT, O_CORRECTED_SAME, O_SECOND_CARRIER_ID, O_XDS_FIRST, O_XDS_CHANGE, O_XDS_CALL_REFINES, O_REANNOUNCE_AFTER_DEVIATION, O_ANON_RESET, O_ANON_AFTER_FIRST_ID, O_GAP_DISARMED,
+       O_HDR_LEARNED, O_HDR_SAME, O_HDR_NEW_STATION_KEPT, O_HDR_RESET, O_HDR_OTHER_MAG, O_HDR_NOPGNO, O_WSS_ONE_MEMBER, O_N };
 static const char *OUTN[O_N] = {
         "first identification: one NETWORK + NETWORK_ID on the repeat, pages kept",
         "station change: one NETWORK on the repeat, pages of the old station dropped",
@@ -405,6 +468,13 @@ static const char *OUTN[O_N] = {
         "timestamp gap + 40 regular frames without an identified station change: one anonymous reset (NETWORK nuid 0 if a station was identified, pages dropped)",
         "station identified for the first time after a timestamp gap: countdown not disarmed, anonymous reset 40 frames later (accepted as documented frame-drop behaviour)",
         "station change after a timestamp gap disarms the countdown: 40 regular frames later nothing happens",
+        "rolling header: first rolling page after a reset, header learned, page cached",
+        "rolling header: same station text on another page, page cached, no event",
+        "rolling header: first rolling page of the new station after an identified station change: cached, no further NETWORK event",
+        "rolling header: text of another station in the same magazine without an identified change: anonymous reset (NETWORK nuid 0 if a station was identified), pages dropped (accepted as documented channel-switch detection)",
+        "rolling header: text of another station in another magazine: page cached, no event",
+        "rolling header: header without its page number is inconclusive: page cached, no event",
+        "WSS: confirmed word differs from the announced one in a single decoded member: announced with the transmitted values",
 };
 static void outcome(int o) { if (!(outcomes_seen & (1u << o))) { outcomes_seen |= 1u << o; mc_outcome("%s", OUTN[o]); } }
 
@@ -469,6 +539,13 @@ static int aspect_eq(const vbi_aspect_ratio *a, const vbi_aspect_ratio *b)
         return a->first_line == b->first_line && a->last_line == b->last_line && a->ratio == b->ratio && a->film_mode == b->film_mode && a->open_subtitles == b->open_subtitles;
 }
 
+/* does the aspect announced last equal what the word on air decodes to?  (anamorphic: any ratio other than 1) */
+static int aspect_same_ref(const vbi_aspect_ratio *announced, const vbi_aspect_ratio *want, int anam)
+{
+        return announced->first_line == want->first_line && announced->last_line == want->last_line && (announced->ratio != 1.0) == (anam != 0)
+                && announced->film_mode == want->film_mode && announced->open_subtitles == want->open_subtitles;
+}
+
 /* station change side effects shared by PAL and XDS */
 static int audit_cache(int changed, int had_ident, int cached_before, int cached_after, const char *what)
 {
@@ -485,6 +562,14 @@ static void ref_station_reset(void)
 {
         /* what the decoder documents to forget on a channel switch */
         R.asp_have = 0; R.wss_have = 0; R.wss_rep = 0;
+        R.hdr_have = 0;                           /* the rolling header is learned again from the next page */
+}
+/* an unidentified channel switch (countdown ran out, rolling header of another station): nothing is known any more */
+static void ref_anonymous_reset(void)
+{
+        R.ident = 0; R.id_under_cd = 0; R.after_change = 0;
+        for (int c = 0; c < NCAR; c++) { int os = R.car[c].other_since; memset(&R.car[c], 0, sizeof R.car[c]); R.car[c].other_since = os; }
+        ref_station_reset();
 }
 
 static int net_all_zero(const vbi_network *n)
@@ -525,18 +610,69 @@ static void frame(vbi_sliced *s, int n)
                 if (aspect_eq(&LOG[k].asp, &blank)) k++;
         }
         memmove(&LOG[l0], &LOG[k], (nlog - k) * sizeof LOG[0]); nlog -= k - l0;
-        if (n != 3 && page_cached()) { frame_viol = bad("pages still cached after the channel-switch countdown ran out", "identified station %u", R.ident); return; }
+        if (cached_mask() & ~own_bit) { frame_viol = bad("pages still cached after the channel-switch countdown ran out", "identified station %u", R.ident); return; }
         if (R.ident) outcome(R.id_under_cd ? O_ANON_AFTER_FIRST_ID : O_ANON_RESET);
-        R.ident = 0; R.expired = 1; R.id_under_cd = 0;
-        for (int c = 0; c < NCAR; c++) { int os = R.car[c].other_since; memset(&R.car[c], 0, sizeof R.car[c]); R.car[c].other_since = os; }
-        ref_station_reset();
+        R.expired = 1;
+        ref_anonymous_reset();
+}
+
+/* A rolling Teletext page was received (seed C13 round 5).  What the property says about it: a page is no
+ * carrier of a station identifier, so it raises no NETWORK / NETWORK_ID event and, when the identified station
+ * did not change, clears nothing; after an identified station change the pages of the NEW station stay cached and
+ * no further network event follows ("exactly one network event").  The one documented exception is the decoder's
+ * own channel-switch detection (vbi_channel_switched(): "The decoder attempts to detect channel switches
+ * automatically"): a rolling header whose text contradicts the header learned since the last reset, in the same
+ * magazine, may be taken as an unidentified channel switch - exactly like the frame-drop countdown: one all-zero
+ * NETWORK if a station was identified, the blank ASPECT if one was announced, all pages dropped (the page itself is
+ * not stored).  That reset is accepted, not demanded; whether it took place is observed with vbi_is_cached() of
+ * the page just received.  Reference: the header (station text, magazine) learned from the first rolling page
+ * after a reset; a header without its page number is inconclusive and teaches nothing. */
+#define KEY_HDR_ANON KEY_ANON " [rolling Teletext page; no header of another station learned since the last reset]"
+static int audit_roll(const struct rx *r, int cached_before, int cached_after)
+{
+        static const vbi_aspect_ratio blank = { 23, 310, 1.0, 0, VBI_SUBT_UNKNOWN };
+        int own = probe_bit(r->pgno), stored = (cached_after & own) != 0;
+        int conclusive = !r->nopgno;
+        int same_mag = R.hdr_have && ((R.hdr_pgno ^ r->pgno) & 0xF00) == 0;
+        int contradicts = conclusive && R.hdr_have && R.hdr_stn != r->stn && same_mag;
+        int nANON = 0, nBLANK = 0;
+        for (int i = 0; i < nlog; i++) {
+                if (LOG[i].type == VBI_EVENT_NETWORK && net_all_zero(&LOG[i].net)) nANON++;
+                else if (LOG[i].type == VBI_EVENT_ASPECT && aspect_eq(&LOG[i].asp, &blank)) nBLANK++;
+        }
+        if (!contradicts) {
+                if (nANON) return bad(KEY_HDR_ANON, "%s: identified station %u, learned header: %s", r->name, R.ident, R.hdr_have ? HDR_TXT[R.hdr_stn] : "none");
+                if (nlog) return bad("event without a reception that carries it", "%s", r->name);
+                if (!stored || (cached_after & ~own) != (cached_before & ~own))
+                        return bad("cache cleared although the identified station did not change", "%s: vbi_is_cached mask %x -> %x, page %03x %s", r->name, cached_before, cached_after, r->pgno, stored ? "cached" : "not cached");
+                if (!conclusive) outcome(O_HDR_NOPGNO);
+                else if (!R.hdr_have) { outcome(R.after_change ? O_HDR_NEW_STATION_KEPT : O_HDR_LEARNED); R.after_change = 0; R.hdr_have = 1; R.hdr_stn = r->stn; R.hdr_pgno = r->pgno; }
+                else if (R.hdr_stn == r->stn) { outcome(O_HDR_SAME); R.hdr_pgno = r->pgno; }
+                else outcome(O_HDR_OTHER_MAG);
+                return 0;
+        }
+        /* contradicting header: the anonymous reset is accepted */
+        if (nANON > 1) return bad("more than one NETWORK event for one reception [anonymous reset]", "%s", r->name);
+        if (nBLANK > (R.asp_have ? 1 : 0) || nlog > nANON + nBLANK) return bad("event without a reception that carries it", "%s", r->name);
+        if (stored) {                              /* no reset */
+                if (nANON) return bad_anonymous(r->name);
+                if (nBLANK) return bad("ASPECT event raised by a line that carries no aspect information", "%s", r->name);
+                if ((cached_after & ~own) != (cached_before & ~own)) return bad("cache cleared although the identified station did not change", "%s", r->name);
+                return 0;
+        }
+        if (cached_after) return bad("pages still cached after an anonymous reset", "%s: vbi_is_cached mask %x -> %x", r->name, cached_before, cached_after);
+        if (nANON && !R.ident) return bad_anonymous(r->name);
+        if (!nANON && R.ident) return bad("cache cleared although the identified station did not change", "%s: pages dropped without a NETWORK event, identified station %u", r->name, R.ident);
+        outcome(O_HDR_RESET);
+        ref_anonymous_reset();
+        return 0;
 }
 
 /* one PAL / WSS / Teletext reception: feed and audit.  1 = violation reported */
 static int pal_feed(const struct rx *r)
 {
         vbi_sliced sl;
-        int cached_before = page_cached();
+        int cached_before = cached_mask();
         nlog = 0; log_overflow = 0; frame_viol = 0; R.expired = 0;
         if (r->kind == K_GAP) { D.gap_pending = 1; R.gap_seen = 1; return 0; }     /* the next frame carries a timestamp jump of +1 s */
         switch (r->kind) {
@@ -546,18 +682,22 @@ static int pal_feed(const struct rx *r)
         case K_8302: build_8302(&sl, r); frame(&sl, 1); break;
         case K_WSS:  build_wss(&sl, r->wss); frame(&sl, 1); break;
         case K_TTX:  feed_ttx_page(); break;
+        case K_ROLL: feed_roll_page(r); break;
         default:     frame(NULL, 0); break;
         }
-        int cached_after = page_cached();
+        int cached_after = cached_mask();
         n_receptions++; n_events += nlog;
         if (log_overflow) return bad("event storm: more than 24 events for one reception", "%s", r->name);
         if (frame_viol) return 1;
         if (R.expired) cached_before = 0;          /* the reset precedes the lines of its frame */
 
+        if (r->kind == K_ROLL) return audit_roll(r, cached_before, cached_after);
+
         if (r->kind == K_TTX || r->kind == K_EMPTY || r->kind == K_IDLE40) {
                 if (find_anonymous()) return bad_anonymous(r->name);
                 if (nlog) return bad("event without a reception that carries it", "%s", r->name);
-                if (r->kind != K_TTX && cached_after != cached_before) return bad("cache cleared although the identified station did not change", "%s", r->name);
+                int own = r->kind == K_TTX ? probe_bit(TTX_PGNO) : 0;
+                if ((cached_after & ~own) != (cached_before & ~own)) return bad("cache cleared although the identified station did not change", "%s", r->name);
                 if (r->kind == K_IDLE40 && R.gap_seen && !R.expired && R.cd == 0 && R.ident) outcome(O_GAP_DISARMED);
                 return 0;
         }
@@ -575,9 +715,23 @@ static int pal_feed(const struct rx *r)
                         if (anam) { if (got.ratio == 1.0) return bad("ASPECT event does not carry the transmitted WSS values", "anamorphic format announced with ratio 1"); want.ratio = got.ratio; }
                         if (!aspect_eq(&got, &want)) return bad("ASPECT event does not carry the transmitted WSS values", "%s: want %d-%d ratio=%g film=%d subt=%d", r->name, want.first_line, want.last_line, want.ratio, want.film_mode, want.open_subtitles);
                         if (R.asp_have && aspect_eq(&R.asp, &got)) return bad("ASPECT announced again while the same value keeps arriving", "%s", r->name);
+                        if (R.asp_have && (R.asp.first_line != got.first_line || R.asp.last_line != got.last_line) + (R.asp.ratio != got.ratio) + (R.asp.film_mode != got.film_mode) + (R.asp.open_subtitles != got.open_subtitles) == 1)
+                                outcome(O_WSS_ONE_MEMBER);
                         R.asp_have = 1; R.asp = got;
                         outcome(O_WSS_ANNOUNCED);
                 } else if (R.wss_rep >= 4) {
+                        /* MUST (seed C13 round 5): the confirmed word decodes to something else than what was announced last
+                         * (or nothing was announced yet) - the event has to come, or the application keeps the stale
+                         * values while other ones are transmitted.  Key: which decoded members changed. */
+                        if (par && !R.asp_have) return bad("WSS word repeated three times with valid parity not announced", "%s: reception %d or later of this word in a row", r->name, R.wss_rep);
+                        if (par && !aspect_same_ref(&R.asp, &want, anam)) {
+                                char k[200];
+                                snprintf(k, sizeof k, "confirmed WSS change not announced [differs from the announced aspect in:%s%s%s%s]",
+                                         (R.asp.first_line != want.first_line || R.asp.last_line != want.last_line) ? " active lines" : "", ((R.asp.ratio != 1.0) != anam) ? " ratio" : "",
+                                         R.asp.film_mode != want.film_mode ? " film_mode" : "", R.asp.open_subtitles != want.open_subtitles ? " open_subtitles" : "");
+                                return bad(k, "%s: announced last %d-%d ratio=%g film=%d subt=%d, on air %d-%d %s film=%d subt=%d", r->name, R.asp.first_line, R.asp.last_line, R.asp.ratio, R.asp.film_mode, R.asp.open_subtitles,
+                                           want.first_line, want.last_line, anam ? "anamorphic" : "ratio=1", want.film_mode, want.open_subtitles);
+                        }
                         if (!par) outcome(O_WSS_BADPAR_SILENT); else if (R.asp_have) outcome(O_WSS_SAME_SILENT);
                 }
                 if (cached_after != cached_before) return bad("cache cleared although the identified station did not change", "%s", r->name);
@@ -659,7 +813,7 @@ static int pal_feed(const struct rx *r)
                 if (had_ident) { R.cd = 0; R.id_under_cd = 0; }   /* vbi_chsw_reset() with an id ends the countdown */
                 else if (R.cd > 0) R.id_under_cd = 1;
                 R.ident = sid;
-                if (had_ident) ref_station_reset();
+                if (had_ident) { ref_station_reset(); R.after_change = 1; }
         } else if (nNID) {
                 if (!es.n) outcome(O_UNKNOWN_ID); else if (rc->rep == 2) outcome(O_SECOND_CARRIER_ID);
         } else if (rc->rep == 1 && had_ident && sid != R.ident && cached_before) outcome(O_DEVIATION_KEPT);
@@ -702,12 +856,12 @@ static int pal_feed(const struct rx *r)
 /* one XDS reception */
 static int xds_feed(const struct rx *r)
 {
-        int cached_before = page_cached();
+        int cached_before = cached_mask();
         nlog = 0; log_overflow = 0; frame_viol = 0; R.expired = 0;
         if (r->kind == K_TTX) feed_ttx_page();
         else if (r->kind == K_EMPTY) frame(NULL, 0);
         else feed_xds(r->kind == K_XNAME ? 1 : 2, r->str, r->damage == DMG_DOUBLE);
-        int cached_after = page_cached();
+        int cached_after = cached_mask();
         n_receptions++; n_events += nlog;
         if (log_overflow) return bad("event storm: more than 24 events for one reception", "%s", r->name);
         if (r->kind == K_TTX || r->kind == K_EMPTY || r->damage == DMG_DOUBLE || r->kind == K_XCALL) {
@@ -771,6 +925,7 @@ static int xds_feed(const struct rx *r)
 #define WSS_W1      0x021B     /* 16:9 letterbox centre, film mode, subtitles in the active image; parity ok */
 #define WSS_W2      0x0008     /* 4:3 full format; parity ok */
 #define WSS_BAD     0x0213     /* W1 with the parity bit flipped */
+#define WSS_W3      0x041B     /* W1 with the other open-subtitles bit: subtitles out of the active image; nothing else differs */
 
 static const struct rx PAL[] = {
         { K_VPS, CNI_A_VPS, PIL_P, 1, 0x21, .name = "VPS(ARD,p)" },
@@ -793,6 +948,14 @@ static const struct rx PAL[] = {
         { K_EMPTY, .name = "empty frame" },
         { K_GAP, .name = "gap(next frame +1 s)" },
         { K_IDLE40, .name = "45 regular empty frames" },
+        /* seed C13 round 5 */
+        { K_WSS, .wss = WSS_W3,  .name = "WSS(16:9 film, subtitles in the matte)" },
+        { K_ROLL, .pgno = 0x100, .stn = 0, .name = "TTX(rolling page 100, header 'ARD-Text 100')" },
+        { K_ROLL, .pgno = 0x101, .stn = 0, .name = "TTX(rolling page 101, header 'ARD-Text 101')" },
+        { K_ROLL, .pgno = 0x100, .stn = 1, .name = "TTX(rolling page 100, header 'ZDFtext 100')" },
+        { K_ROLL, .pgno = 0x101, .stn = 1, .name = "TTX(rolling page 101, header 'ZDFtext 101')" },
+        { K_ROLL, .pgno = 0x200, .stn = 1, .serial = 1, .name = "TTX(rolling page 200 serial mode, header 'ZDFtext 200')" },
+        { K_ROLL, .pgno = 0x100, .stn = 1, .nopgno = 1, .name = "TTX(page 100, header 'ZDFtext' without the page number)" },
 };
 enum { NPAL = sizeof PAL / sizeof PAL[0] };
 
@@ -816,7 +979,8 @@ struct cfg { const char *name; int xds; int nl; int map[NPAL]; int depth[2]; };
 static const struct cfg CFGS[] = {
         { "pal-all", 0, 18, { 0,1,2,3,4,5,6,7,8,9,10,11,12,13,14,15,16,17 }, { 5, 8 } },
         { "pal-cni", 0, 15, { 0,1,2,3,4,5,6,7,8,9,10,11,12,16,17 },          { 7, 16 } },
-        { "pal-wss", 0, 7,  { 0,2,13,14,15,16,17 },                          { 18, 18 } },
+        { "pal-wss", 0, 8,  { 0,2,13,14,15,16,17,20 },                       { 18, 18 } },
+        { "pal-hdr", 0, 11, { 0,2,3,6,21,22,23,24,25,26,16 },                { 9, 12 } },
         { "pal-gap", 0, 5,  { 0,2,18,19,16 },                                { 10, 16 } },
         { "xds",     1, 8,  { 0,1,2,3,4,5,6,7 },                             { 12, 12 } },
         { "xds-prefix", 1, 7, { 8,0,9,4,10,6,7 },                            { 10, 12 } },
@@ -848,7 +1012,7 @@ static void state_hash(uint64_t out[2])
         s.vps_pid.channel = p->channel; s.vps_pid.cni = p->cni; s.vps_pid.pil = p->pil; s.vps_pid.pcs_audio = p->pcs_audio; s.vps_pid.pty = p->pty; s.vps_pid.mi = p->mi;
         s.wss_last[0] = D.vbi->wss_last[0]; s.wss_last[1] = D.vbi->wss_last[1];
         s.wss_rep = D.vbi->wss_rep_ct < 3 ? D.vbi->wss_rep_ct : 3;
-        s.aspect_source = D.vbi->aspect_source; s.chswcd = D.vbi->chswcd; s.cached = page_cached();
+        s.aspect_source = D.vbi->aspect_source; s.chswcd = D.vbi->chswcd; s.cached = cached_mask();
         const vbi_aspect_ratio *a = &D.vbi->prog_info[0].aspect;
         s.aspect.first_line = a->first_line; s.aspect.last_line = a->last_line; s.aspect.ratio = a->ratio; s.aspect.film_mode = a->film_mode; s.aspect.open_subtitles = a->open_subtitles;
         mc_hash h; mc_hash_init(&h);
@@ -864,6 +1028,10 @@ static void state_hash(uint64_t out[2])
         mc_hash_add(&h, w, sizeof w);
         int x[9] = { R.xn_have, R.xn_rep, R.x_announced, R.xc_have, R.xi_have, R.started, R.cd, R.gap_seen, D.gap_pending };
         mc_hash_add(&h, x, sizeof x);
+        /* rolling header: what the decoder learned (only meaningful while a header page is recorded) and the reference */
+        int y[4] = { D.vbi->vt.header_page.pgno, R.hdr_have, R.hdr_have ? R.hdr_stn : 0, R.hdr_have ? (int) R.hdr_pgno : 0 };   /* after_change only labels an outcome */
+        mc_hash_add(&h, y, sizeof y);
+        if (D.vbi->vt.header_page.pgno) mc_hash_add(&h, D.vbi->vt.header + 8, 32);
         mc_hash_add(&h, R.xn, sizeof R.xn); mc_hash_add(&h, R.xc, sizeof R.xc); mc_hash_add(&h, R.xi_name, sizeof R.xi_name); mc_hash_add(&h, R.xi_key, sizeof R.xi_key);
         out[0] = h.a; out[1] = h.b;
 }
@@ -1000,10 +1168,54 @@ static void flat_wss_dev(uint64_t chunk, void *arg)
                                                    : k == 4 ? "ASPECT event for a single deviating WSS reception between identical ones"
                                                    : "ASPECT announced again while the same value keeps arriving", "%s, reception %d", d, k + 1);
                         }
+                        dec_delete();
                         mc_count("evaluations", 1);
                 }
         }
         mc_distinct(0x4800000 + chunk);
+}
+/* WSS transitions (seed C13 round 5): what a confirmed word raises depends on the aspect announced BEFORE it,
+ * and the sweeps above only ever start from a fresh decoder.  EN 300 294 words decode into vbi_aspect_ratio
+ * through the format (3 bits: active lines, ratio), the film bit and the two open-subtitles bits: 8 x 2 x 4 = 64
+ * decodable classes (parity bit set as required).  Every ORDERED pair (a, b) of classes is driven through one decoder:
+ * a x 4, b x 4 - so every pair of words differing in exactly one decoded member (and in several, and in none:
+ * formats 0/6 and 3/5 decode alike) occurs as "announced a, b confirmed" and as "announced b, a confirmed".  The
+ * second word additionally carries one of 10 patterns of the bits that are NOT decoded (none, or one of b5 b6 b7
+ * b8 b11 b12 b13 and the two spare bits of the 16 bit word): those must never make a difference.  pal_feed()
+ * audits every reception: the ASPECT event is raised on the 4th reception iff the decoded aspect differs from the
+ * one announced last, and carries exactly the transmitted values.  One case = one first class a and one pattern. */
+enum { NWSSCLS = 64, NWSSPAT = 10 };
+static unsigned wss_class_word(int c)
+{
+        unsigned fmt = c & 7, film = (c >> 3) & 1, subt = (c >> 4) & 3;
+        unsigned par = 1 ^ ((fmt ^ (fmt >> 1) ^ (fmt >> 2)) & 1);           /* odd parity over b0..b3 */
+        return fmt | (par << 3) | (film << 4) | (subt << 9);
+}
+static void flat_wss_trans(uint64_t idx, void *arg)
+{
+        static const unsigned PAT[NWSSPAT] = { 0, 1u << 5, 1u << 6, 1u << 7, 1u << 8, 1u << 11, 1u << 12, 1u << 13, 1u << 14, 1u << 15 };
+        int a = idx / NWSSPAT; unsigned pat = PAT[idx % NWSSPAT], wa = wss_class_word(a);
+        char d[160];
+        memset(&R, 0, sizeof R); ctx_hist = NULL;
+        dec_new();
+        uint64_t n = 0, h = 0;
+        for (int b = 0; b < NWSSCLS; b++) {
+                unsigned wb = wss_class_word(b) | pat;
+                snprintf(d, sizeof d, "one decoder, for every class b' < %d: WSS %04x four times, WSS word(b') | %04x four times; now WSS %04x four times, WSS %04x four times", b, wa, pat, wa, wb);
+                ctx_desc = d;
+                mc_case("WSS transition sweep", "%s", d);
+                struct rx ra = { K_WSS, .wss = wa, .name = d }, rb = { K_WSS, .wss = wb, .name = d };
+                for (int k = 0; k < 8; k++) {
+                        if (pal_feed(k < 4 ? &ra : &rb)) goto out;
+                        h = h * 3 + nlog;
+                }
+                n++;
+        }
+        mc_count("evaluations", n);
+        mc_distinct(0x4C00000 + idx);
+        (void) h;
+out:
+        dec_delete();
 }
 /* all PILs: programme id events on one decoder.  8/30-2 announces every reception; VPS announces with the CNI
  * confirmation, so the CNI alternates between two stations and every label is sent twice. */
@@ -1060,7 +1272,7 @@ static void self_check(void)
         if (a.e[0] != b.e[0] || a.e[0] != c.e[0]) { fprintf(stderr, "C13: B, B', B'' are not one station\n"); exit(2); }
         /* the Teletext page letter must populate the cache */
         dec_new(); feed_ttx_page();
-        if (!page_cached()) { fprintf(stderr, "C13: Teletext letter does not populate the cache\n"); exit(2); }
+        if (!cached_mask()) { fprintf(stderr, "C13: Teletext letter does not populate the cache\n"); exit(2); }
         dec_delete();
         /* a written-out event log for the evidence file */
         static const uint8_t h[] = { 0, 0, 16, 2, 2 };
@@ -1069,7 +1281,7 @@ static void self_check(void)
         for (unsigned i = 0; i < sizeof h; i++) {
                 vbi_sliced sl; nlog = 0;
                 if (PAL[h[i]].kind == K_VPS) { build_vps(&sl, &PAL[h[i]]); frame(&sl, 1); } else feed_ttx_page();
-                o += snprintf(txt + o, sizeof txt - o, "%s -> %s[cached=%d] ; ", PAL[h[i]].name, log_str(), page_cached());
+                o += snprintf(txt + o, sizeof txt - o, "%s -> %s[cached=%d] ; ", PAL[h[i]].name, log_str(), cached_mask());
                 if (o > sizeof txt - 400) break;
         }
         dec_delete();
@@ -1081,18 +1293,19 @@ int main(int argc, char **argv)
         mc_init(argc, argv, "C13");
         mc_set_budget(100, 1200);
         mc_meta("level", "model_checking");
-        mc_meta("technique", "explicit-state BFS over reception histories on the real vbi_decode() with an event-log oracle (reference model of transmitted values, repeat counts and identified station), plus exhaustive value sweeps on fresh decoders");
-        mc_meta("rule", "a history is a sequence of receptions (VPS line, 8/30 format 1 / format 2 packet, WSS 625 line, XDS channel-information packet on line 284, a corrupted copy, a rejected copy, a Teletext page, an empty frame); every history within the depth is replayed on a fresh decoder with all five event types logged per reception and audited; states are canonical (vbi_network, cycle, vps_pid, WSS last/rep, aspect, chswcd, page cached, reference model); a history is non-trivial when at least one event was raised; sweeps: every CNI of each carrier twice, every WSS word five times, every PIL, each on the real decoder with the announcement demanded");
+        mc_meta("technique", "explicit-state BFS over reception histories on the real vbi_decode() with an event-log oracle (reference model of transmitted values, repeat counts, identified station, announced aspect and learned rolling Teletext header), plus exhaustive value sweeps on fresh decoders and a sweep over all ordered pairs of decodable WSS classes on one decoder");
+        mc_meta("rule", "a history is a sequence of receptions (VPS line, 8/30 format 1 / format 2 packet, WSS 625 line, XDS channel-information packet on line 284, a corrupted copy, a rejected copy, a Teletext page, a rolling Teletext page whose header carries the text of station A or B and its page number, an empty frame); every history within the depth is replayed on a fresh decoder with all five event types logged per reception and audited; states are canonical (vbi_network, cycle, vps_pid, WSS last/rep, aspect, chswcd, which of the pages 201/100/101/200 are cached, rolling header learned by the decoder, reference model); a history is non-trivial when at least one event was raised; sweeps: every CNI of each carrier twice, every WSS word five times, every PIL, each on the real decoder with the announcement demanded; WSS transitions: for every ordered pair (a, b) of the 64 decodable classes (format, film bit, open subtitles) word a four times then word b four times on one decoder, b with each of 10 patterns of the undecoded bits: ASPECT demanded iff the decoded aspect differs from the one announced last, with exactly the transmitted values");
         mc_meta("assume", "vbi_cni_table is data: names and ids are looked up by an own scan (VPS: cni4, 8/30-1: cni1, 8/30-2: cni2, else cni4 of the low 12 bits when those are non-zero)");
         mc_meta("assume", "VPS/Teletext and XDS identifiers are not mixed in one history (documented at VBI_EVENT_NETWORK as unsupported)");
+        mc_meta("assume", "a rolling Teletext header that contradicts the header learned since the last reset (same magazine) may be taken as an unidentified channel switch (documented automatic detection): one all-zero NETWORK iff a station was identified, all pages dropped - accepted, not demanded; rolling pages are not combined with timestamp gaps");
         mc_meta("assume", "frames arrive every 0.04 s except for the gap letter of phase pal-gap (+1 s); CNI 0xDC3/0x0DC3 skipped in sweeps (TR 101 231 rewrite, see C12)");
         mc_meta("assume", "repeated PROG_ID / LOCAL_TIME with unchanged value accepted (decoder documents it as presence signal); XDS call letters not required to be debounced (checksum protected)");
         int tier = mc_tier == MC_THOROUGH;
         pil_stride = tier ? 1 : 16;
-        char bound[500]; size_t o = 0;
+        char bound[700]; size_t o = 0;
         for (unsigned i = 0; i < sizeof CFGS / sizeof *CFGS; i++)
                 o += snprintf(bound + o, sizeof bound - o, "%s%s: %d letters, depth <= %d", i ? "; " : "", CFGS[i].name, CFGS[i].nl, CFGS[i].depth[tier]);
-        mc_meta("bound", "%s; sweeps: 4095 VPS CNI, 65536 8/30-1 CNI, 65535 8/30-2 CNI, 65535 WSS words, every single-bit deviation (14 bits) of every valid 14 bit WSS word between repeats, 2^20/%d PIL", bound, pil_stride);
+        mc_meta("bound", "%s; sweeps: 4095 VPS CNI, 65536 8/30-1 CNI, 65535 8/30-2 CNI, 65535 WSS words, every single-bit deviation (14 bits) of every valid 14 bit WSS word between repeats, all 64 x 64 ordered pairs of decodable WSS classes x 10 patterns of the undecoded bits, 2^20/%d PIL", bound, pil_stride);
 
         if (!mc_replaying) self_check();
         for (unsigned i = 0; i < sizeof CFGS / sizeof *CFGS; i++) {
@@ -1107,6 +1320,7 @@ int main(int argc, char **argv)
         mc_pool("sweep-8302-cni", 256, flat_8302, NULL, 30);
         mc_pool("sweep-wss", 256, flat_wss, NULL, 30);
         mc_pool("sweep-wss-deviation", 16384 / 64, flat_wss_dev, NULL, 60);
+        mc_pool("sweep-wss-transition", NWSSCLS * NWSSPAT, flat_wss_trans, NULL, 30);
         mc_pool("sweep-pil", 1024, flat_pil, NULL, 60);
         return mc_finish();
 }
